@@ -202,9 +202,11 @@ class GeminiClientProtocol(asyncio.Protocol):
                             break
                 try:
                     body = self.buffer.decode(charset)
-                except (UnicodeDecodeError, LookupError) as e:
-                    # Undecodable body or unknown charset label: report it instead of
-                    # leaving the caller waiting for the timeout
+                except (ValueError, LookupError) as e:
+                    # Undecodable body (UnicodeDecodeError is a ValueError), unknown or
+                    # unusable charset label ("undefined" raises UnicodeError, a NUL in
+                    # the label ValueError): report it instead of leaving the caller
+                    # waiting for the timeout
                     self.response_future.set_exception(e)
                     return
             else:
@@ -437,9 +439,11 @@ class TitanClientProtocol(asyncio.Protocol):
                             break
                 try:
                     body = self.buffer.decode(charset)
-                except (UnicodeDecodeError, LookupError) as e:
-                    # Undecodable body or unknown charset label: report it instead of
-                    # leaving the caller waiting for the timeout
+                except (ValueError, LookupError) as e:
+                    # Undecodable body (UnicodeDecodeError is a ValueError), unknown or
+                    # unusable charset label ("undefined" raises UnicodeError, a NUL in
+                    # the label ValueError): report it instead of leaving the caller
+                    # waiting for the timeout
                     self.response_future.set_exception(e)
                     return
             else:
